@@ -17,11 +17,12 @@ hp = os.path.join(HERE, 'hooks_commits.txt')
 if os.path.exists(hp):
     hooks_commits = [l.split()[0] for l in open(hp) if l.strip()]
 
+ENABLED = set(open(os.path.join(HERE, 'props', 'ENABLED.txt')).read().split())
 checks, na = [], []
 for p in props:
     pid = p['id']
     path = os.path.join(HERE, 'props', pid.lower() + '.py')
-    if not os.path.exists(path):
+    if not os.path.exists(path) or pid not in ENABLED:
         na.append({'property_id': pid, 'reason': 'check not built yet in this tree (planned in DESIGN.md section 4, %s); '
                                                  'no claim is made' % pid})
         continue
